@@ -26,6 +26,10 @@ def run(tier, seed, t0):
     args = [["-scenario", "bfs:" + c, "-tier", tier, "-budget", str(budget)] for c in CONFS]
     args += [["-scenario", c, "-tier", tier, "-budget", str(budget)] for c in CONC]
     res = vlib.run_workers(w, args, timeout=budget + 120)
+    # adjunct: the same cache, nothing rewritten, free-running under the Go race detector (a deleted or narrowed lock is
+    # invisible to a cooperative scheduler: between two scheduling points a thread runs atomically)
+    res += vlib.race_pass("c18race", INJECTS, "./internal/zzverif_c18", ["race:map", "race:lru1", "race:lru-live2-non1"] + (["race:lru2"] if tier == "thorough" else []),
+                          budget=240 if tier == "thorough" else 24)
     vlib.finish(PID, tier, "model_checking", res, t0, ASSUME,
                 "BFS over histories of {query(addr) with scripted probe verdict, advance, ClearExpired} per cache configuration on a fresh real CachedLivenessTester built by liveness.New; each answer checked against the probe history (fresh, unflipped, exactly one probe otherwise) and each cache's Len against its configured capacity; plus stateless DFS over interleavings of concurrent queries and clean-ups",
                 seed=seed)
